@@ -11,7 +11,7 @@
    bin/check C10. *)
 From Coq Require Import ZArith NArith List Bool.
 From NV Require Import Bcf.Ints Bcf.IntsProofs Bcf.Typed Bcf.TypedProofs Bcf.VectorsProofs Bcf.Genotype Bcf.GenotypeProofs
-  Bcf.Strings Bcf.StringsProofs Bcf.StringMap Bcf.StringMapProofs Bcf.Record Bcf.RecordProofs.
+  Bcf.Strings Bcf.StringsProofs Bcf.StringMap Bcf.StringMapProofs Bcf.Record Bcf.RecordProofs Bcf.BlockProofs.
 Import ListNotations.
 Open Scope Z_scope.
 
@@ -330,31 +330,43 @@ Proof. exact fmt_str_arrays_special_refuted. Qed.
 Print Assumptions bcf_string_vector_series_special_refuted.
 
 (* ---------------------------------------------------------------- the dictionaries *)
-(* NV.Bcf.StringMap mirrors noodles-vcf header/string_maps.rs: PASS = 0, `insert` per header line
-   (INFO, FILTER, FORMAT lines in that order for the strings; contig lines separately), IDX when
-   present (insert_at, which resizes with holes), else order of appearance (push).
+(* NV.Bcf.StringMap mirrors noodles-vcf header/string_maps.rs (after fix 09): PASS = 0, `insert`
+   per header line (INFO, FILTER, FORMAT lines in that order for the strings; contig lines
+   separately), IDX when present (insert_at, which resizes with holes; an IDX that names a slot
+   held by another ID, or an ID that reappears with another IDX, is StringMapPositionMismatch),
+   else order of appearance (push).
    wf m: index -> name -> index and name -> index -> name.
-   string_map_resolve: when the build succeeds and no step overwrites a slot held by another ID
-   (no_clobber_from, a computed check), the dictionary is well formed, every header ID resolves to
-   an index that resolves back to it, an explicit IDX is the index, and PASS stays at 0. *)
+   Whenever the build succeeds the dictionary is well formed, every header ID resolves to an
+   index that resolves back to it, an explicit IDX is the index, and PASS stays at 0. *)
 Theorem bcf_string_map_resolve : forall ls m,
-  build_strings ls = Some m -> no_clobber_from default_strings ls = true ->
+  build_strings ls = Some m ->
   wf m /\
   (forall id idx, In (id, idx) ls ->
      exists i, get_index_of m id = Some i /\ get_index m i = Some id /\
                (forall k, idx = Some k -> i = k)) /\
   get_index_of m PASS = Some 0%nat /\ get_index m 0 = Some PASS.
-Proof. exact build_strings_resolve. Qed.
+Proof. exact build_strings_resolve_built. Qed.
 Print Assumptions bcf_string_map_resolve.
 
 Theorem bcf_contig_map_resolve : forall ls m,
-  build_contigs ls = Some m -> no_clobber_from empty_map ls = true ->
+  build_contigs ls = Some m ->
   wf m /\
   (forall id idx, In (id, idx) ls ->
      exists i, get_index_of m id = Some i /\ get_index m i = Some id /\
                (forall k, idx = Some k -> i = k)).
-Proof. exact build_contigs_resolve. Qed.
+Proof. exact build_contigs_resolve_built. Qed.
 Print Assumptions bcf_contig_map_resolve.
+
+(* the same from any well-formed starting dictionary; bindings made earlier never move *)
+Theorem bcf_string_map_resolve_from : forall m0 ls m,
+  wf m0 -> build_from m0 ls = Some m ->
+  wf m /\
+  (forall id idx, In (id, idx) ls ->
+     exists i, get_index_of m id = Some i /\ get_index m i = Some id /\
+               (forall k, idx = Some k -> i = k)) /\
+  (forall n i, get_index_of m0 n = Some i -> get_index_of m n = Some i).
+Proof. exact string_map_resolve_built. Qed.
+Print Assumptions bcf_string_map_resolve_from.
 
 (* input-only sufficient conditions: no line carries an IDX; or every line carries one and the
    assignment is a function, injective, and only PASS uses index 0 / the name PASS *)
@@ -374,11 +386,20 @@ Theorem bcf_string_map_explicit_idx : forall ls,
 Proof. exact build_strings_explicit_ok. Qed.
 Print Assumptions bcf_string_map_explicit_idx.
 
-(* the known class header-idx-conflict-accepted: two IDs given one IDX are both accepted and the
-   dictionary no longer resolves *)
-Theorem bcf_string_map_conflict_refuted : exists ls m, build_strings ls = Some m /\ ~ wf m.
-Proof. exact string_map_clobber_refuted. Qed.
-Print Assumptions bcf_string_map_conflict_refuted.
+(* the former class header-idx-conflict-accepted (repaired by fix 09): an explicit IDX naming a
+   slot that a different ID holds -- through its own IDX or through order of appearance -- is an
+   error, never two IDs sharing an index *)
+Theorem bcf_string_map_conflict_is_error :
+  build_strings [([65%N], Some 1%nat); ([66%N], Some 1%nat)] = None /\
+  build_strings [([65%N], None); ([66%N], Some 1%nat)] = None /\
+  build_contigs [([65%N], Some 1%nat); ([66%N], Some 1%nat)] = None.
+Proof. exact string_map_conflict_is_error. Qed.
+Print Assumptions bcf_string_map_conflict_is_error.
+
+Theorem bcf_string_map_conflict_is_error_general : forall m id i e,
+  get_index_of m id = None -> get_index m i = Some e -> insert m id (Some i) = None.
+Proof. exact insert_conflict_is_error. Qed.
+Print Assumptions bcf_string_map_conflict_is_error_general.
 
 (* ---------------------------------------------------------------- record framing *)
 Theorem bcf_index_roundtrip : forall i rest, 0 <= i <= 2147483647 ->
@@ -435,10 +456,8 @@ Print Assumptions bcf_field_key_roundtrip.
 
 (* c10_record_roundtrip_partial: write_record, then the reader's split and read_site: the same
    site head, the reader positioned at the INFO block [ib], and the FORMAT block [fb] as written.
-   Partial: the INFO / FORMAT blocks are byte blocks here; each field in them is a key
-   (bcf_field_key_roundtrip) followed by a typed value whose round trip is one of the value
-   theorems, but the walk over SEVERAL fields (each value decoder returning its rest) and the
-   dispatch on the header's Number/Type are not composed in Coq. *)
+   Partial: the INFO / FORMAT blocks are opaque byte blocks here; the walk over their fields is
+   c10_record_roundtrip below. *)
 Theorem c10_record_roundtrip_partial : forall strings contigs s infos fmts (has_rows : bool) ib fb rest,
   wf strings -> wf contigs ->
   site_ok strings contigs s (Z.of_nat (length infos)) (Z.of_nat (length fmts)) ->
@@ -454,22 +473,86 @@ Theorem c10_record_roundtrip_partial : forall strings contigs s infos fmts (has_
 Proof. exact record_roundtrip. Qed.
 Print Assumptions c10_record_roundtrip_partial.
 
-Definition c10_record_roundtrip_full_statement : Prop :=
-  (* every record the writer accepts is read back as the same record: needs, beyond the theorem
-     above, decoders for the INFO and FORMAT blocks that walk all fields by the header's
-     Number/Type (the per-value round trips are proved; their composition over a block is only
-     checked against the implementation by the `rec` oracle) *)
-  forall strings contigs s infos fmts (has_rows : bool) bs,
-    enc_record strings contigs s infos fmts has_rows = Ok bs ->
-    exists sb fb, dec_frame bs = Some (sb, fb, []) /\
-      exists ib, dec_head strings contigs sb
-        = Some (head_of s (Z.of_nat (length infos)) (Z.of_nat (length fmts)), ib).
+(* ---------------------------------------------------------------- the INFO / FORMAT blocks *)
+(* every typed value / series the writers of NV.Bcf.{Typed,Strings,Genotype} emit is
+   self-delimiting: whatever follows it, the reader (read_value for an INFO value, read_values /
+   read_genotype_values for a series over n samples) consumes exactly those bytes *)
+Theorem bcf_info_values_self_delimiting :
+  (forall vb, enc_info_missing = Ok vb -> sd false 1 vb) /\
+  (forall n vb, enc_info_int n = Ok vb -> sd false 1 vb) /\
+  (forall vs vb, enc_info_ints vs = Ok vb -> sd false 1 vb) /\
+  (forall b vb, enc_info_float b = Ok vb -> sd false 1 vb) /\
+  (forall vs vb, enc_info_floats vs = Ok vb -> sd false 1 vb) /\
+  (forall s vb, enc_info_string s = Ok vb -> sd false 1 vb).
+Proof.
+  exact (conj sd_info_missing (conj sd_info_int (conj sd_info_ints (conj sd_info_float
+          (conj sd_info_floats sd_info_string))))).
+Qed.
+Print Assumptions bcf_info_values_self_delimiting.
 
-(* c10_partial: the composition for the modelled kinds.  Partial: the walk over several INFO /
-   FORMAT fields of one record and the dispatch on the header's Number/Type are not composed in
-   Coq (see c10_record_roundtrip_full_statement); the lazy bcf::Record accessors and the VCF text
+Theorem bcf_format_series_self_delimiting :
+  (forall vals vb, enc_fmt_int vals = Ok vb -> sd true (length vals) vb) /\
+  (forall vals vb, (1 <= max_len vals)%nat -> enc_fmt_ints vals = Ok vb -> sd true (length vals) vb) /\
+  (forall vals vb, enc_fmt_float vals = Ok vb -> sd true (length vals) vb) /\
+  (forall vals vb, (1 <= fmax_len vals)%nat -> enc_fmt_floats vals = Ok vb -> sd true (length vals) vb) /\
+  (forall gs raws vb, map_res (map_res enc_allele) gs = Ok raws -> (1 <= gt_max_len raws)%nat ->
+     enc_gt gs = Ok vb -> sd true (length gs) vb) /\
+  (forall vals vb, enc_fmt_strings vals = Ok vb -> sd true (length vals) vb) /\
+  (forall vals vb, enc_fmt_chars vals = Ok vb -> sd true (length vals) vb) /\
+  (forall vals vb, enc_fmt_char_arrays vals = Ok vb -> sd true (length vals) vb) /\
+  (forall vals vb, enc_fmt_str_arrays vals = Ok vb -> sd true (length vals) vb).
+Proof.
+  exact (conj sd_fmt_int (conj sd_fmt_ints (conj sd_fmt_float (conj sd_fmt_floats (conj sd_gt
+          (conj sd_fmt_strings (conj sd_fmt_chars (conj sd_fmt_char_arrays sd_fmt_str_arrays)))))))).
+Qed.
+Print Assumptions bcf_format_series_self_delimiting.
+
+(* the walk: any number of fields, each a key of the dictionary followed by a self-delimiting
+   value: the reader gets back every key and every value block in order (dup = true: INFO, whose
+   reader rejects a repeated key) *)
+Theorem bcf_fields_walk : forall m mult dup fs rest,
+  wf m ->
+  (forall k vb, In (k, vb) fs -> exists i, get_index_of m k = Some i /\ Z.of_nat i <= 2147483647) ->
+  (forall k vb, In (k, vb) fs -> sd (negb dup) mult vb) ->
+  (dup = true -> NoDup (map fst fs)) ->
+  exists blk, enc_fields m (map lift fs) = Ok blk /\
+              dec_fields m mult dup (length fs) (blk ++ rest) = Some (fs, rest).
+Proof. exact fields_walk. Qed.
+Print Assumptions bcf_fields_walk.
+
+(* c10_record_roundtrip: the whole record.  For every site satisfying site_ok, any number of INFO
+   fields (distinct keys of the dictionary, self-delimiting values) and any number of FORMAT
+   series over the header's n_sample samples, write_record produces bytes from which
+   read_record_buf's split, read_site, read_info's walk and read_samples' walk recover the same
+   site head, the same INFO keys with the same value blocks and the same FORMAT keys with the
+   same series blocks, and stop exactly at the end of the record.  Composed with the two theorems
+   above and the value theorems, every field's block is the encoding of its value and decodes to
+   it.  (What this does not contain: one Coq datatype of typed records with the dispatch on the
+   header's Number/Type choosing the value decoder -- per field that is the corresponding value
+   theorem; it is exercised as a whole by the `blk` and `rec` cases.) *)
+Theorem c10_record_roundtrip : forall strings contigs s infos fmts (has_rows : bool) rest,
+  wf strings -> wf contigs ->
+  site_ok strings contigs s (Z.of_nat (length infos)) (Z.of_nat (length fmts)) ->
+  (forall k vb, In (k, vb) (infos ++ fmts) ->
+     exists i, get_index_of strings k = Some i /\ Z.of_nat i <= 2147483647) ->
+  (forall k vb, In (k, vb) infos -> sd false 1 vb) -> NoDup (map fst infos) ->
+  (forall k vb, In (k, vb) fmts -> sd true (Z.to_nat (s_n_sample s)) vb) ->
+  (has_rows = true \/ fmts = []) ->
+  (forall sb, enc_site strings contigs s (map lift infos) (Z.of_nat (length fmts)) = Ok sb ->
+     Z.of_nat (length sb) <= 4294967295) ->
+  (forall fb, enc_fields strings (map lift fmts) = Ok fb -> Z.of_nat (length fb) <= 4294967295) ->
+  exists bs, enc_record strings contigs s (map lift infos) (map lift fmts) has_rows = Ok bs /\
+    dec_record strings contigs (bs ++ rest)
+    = Some (head_of s (Z.of_nat (length infos)) (Z.of_nat (length fmts)), infos, fmts, rest).
+Proof. exact record_full_roundtrip. Qed.
+Print Assumptions c10_record_roundtrip.
+
+(* c10_partial: the composition for the modelled kinds.  Partial: there is no single Coq datatype
+   of typed records (the dispatch on the header's Number/Type that picks a field's value decoder
+   is per-field: the value theorems; the walk itself is c10_record_roundtrip); the lazy
+   bcf::Record accessors and the VCF text
    rendering are covered by the implementation-side oracle only; Character/String values are
-   proved outside the class string-special-chars, dictionaries outside header-idx-conflict-accepted. *)
+   proved outside the class string-special-chars. *)
 Theorem c10_partial :
   (forall n, -2147483640 <= n <= 2147483647 ->
      exists bs, enc_info_int n = Ok bs /\ dec_info_int bs = ROk (RInt n)) /\
@@ -503,7 +586,7 @@ Theorem c10_partial :
         Z.of_nat (length (join comma (map str_piece vs))) <= 2147483647) ->
      exists bs, enc_fmt_str_arrays vals = Ok bs /\
                 dec_fmt_str_arrays (length vals) bs = ROk (map norm_strs vals)) /\
-  (forall ls m, build_strings ls = Some m -> no_clobber_from default_strings ls = true ->
+  (forall ls m, build_strings ls = Some m ->
      wf m /\ (forall id idx, In (id, idx) ls ->
        exists i, get_index_of m id = Some i /\ get_index m i = Some id /\
                  (forall k, idx = Some k -> i = k))) /\
@@ -520,7 +603,7 @@ Proof.
     split; [exact info_strs_roundtrip|split; [exact fmt_str_arrays_roundtrip|
     split; [|exact site_head_roundtrip]]]]]]]]]]]].
   - intros n H. destruct (int_width_sound n H) as [w [bs [_ [_ [_ [E D]]]]]]. exists bs. split; assumption.
-  - intros ls m Hb Hc. destruct (build_strings_resolve ls m Hb Hc) as [W [R _]]. split; assumption.
+  - intros ls m Hb. destruct (build_strings_resolve_built ls m Hb) as [W [R _]]. split; assumption.
 Qed.
 Print Assumptions c10_partial.
 
